@@ -88,6 +88,10 @@ const WORDS: &[&str] = &[
 ];
 
 fn gen_line(rng: &mut Rng) -> String {
+    if rng.chance(0.03) {
+        // a line that is not valid UTF-8 on disk
+        return format!("ab {BAD}b a");
+    }
     let n = rng.usize(0, 7);
     let mut s = String::new();
     if rng.chance(0.1) {
@@ -122,9 +126,36 @@ fn gen_file(rng: &mut Rng) -> String {
 }
 
 /// independent sequential reference: tokens of the first `max_sequences` lines
+/// marks a line that is written to the file with a byte that is not valid UTF-8
+pub const BAD: char = '\u{e000}';
+
+pub fn file_bytes(content: &str) -> Vec<u8> {
+    let mut out = Vec::with_capacity(content.len());
+    for c in content.chars() {
+        if c == BAD {
+            out.push(0xFF);
+        } else {
+            let mut b = [0u8; 4];
+            out.extend_from_slice(c.encode_utf8(&mut b).as_bytes());
+        }
+    }
+    out
+}
+
+pub fn files_with_bad_lines(files: &[String]) -> Vec<usize> {
+    files.iter().enumerate().filter(|(_, f)| f.contains(BAD)).map(|(i, _)| i).collect()
+}
+
 fn reference_counts(sc: &C20) -> BTreeMap<String, usize> {
+    reference_counts_with(sc, &vec![true; sc.files.len()])
+}
+
+/// The property does not say what an undecodable line means. Two readings are accepted per
+/// file: only that line is skipped (`stop_file[i] == false`), or reading of that file ends there
+/// (`true`, what the code does today). Lines of *other* files are never affected.
+fn reference_counts_with(sc: &C20, stop_file: &[bool]) -> BTreeMap<String, usize> {
     let mut lines: Vec<String> = vec![];
-    for f in &sc.files {
+    for (fi, f) in sc.files.iter().enumerate() {
         // BufRead::lines semantics: split on \n, strip one trailing \r
         let mut rest = f.as_str();
         while !rest.is_empty() {
@@ -132,8 +163,14 @@ fn reference_counts(sc: &C20) -> BTreeMap<String, usize> {
                 Some(p) => (&rest[..p], &rest[p + 1..]),
                 None => (rest, ""),
             };
-            lines.push(line.strip_suffix('\r').unwrap_or(line).to_string());
             rest = r;
+            if line.contains(BAD) {
+                if stop_file[fi] {
+                    break;
+                }
+                continue;
+            }
+            lines.push(line.strip_suffix('\r').unwrap_or(line).to_string());
         }
     }
     let take = sc.max_sequences.unwrap_or(usize::MAX);
@@ -343,7 +380,7 @@ impl Scenario for C20 {
         let mut paths = vec![];
         for (i, f) in self.files.iter().enumerate() {
             let p = dir.path(&format!("f{i}.txt"));
-            std::fs::write(&p, f).expect("write corpus file");
+            std::fs::write(&p, file_bytes(f)).expect("write corpus file");
             paths.push(p);
         }
         let mut stats = RunStats::default();
@@ -448,8 +485,44 @@ impl Scenario for C20 {
 
 impl C20 {
     fn judge(&self, outs: &[(u8, Result<DictOut, String>, Status)], stats: &mut RunStats) -> Option<Violation> {
+        let bad = files_with_bad_lines(&self.files);
+        if bad.is_empty() {
+            return self.judge_against(outs, &reference_counts(self), stats);
+        }
+        stats.probe("runs_with_undecodable_lines", 1);
+        // every combination of the two accepted readings for the files that have such a line
+        let mut first = None;
+        for mask in 0..(1u32 << bad.len().min(4)) {
+            let mut stop = vec![true; self.files.len()];
+            for (bit, fi) in bad.iter().enumerate().take(4) {
+                stop[*fi] = mask & (1 << bit) == 0;
+            }
+            let mut tmp = RunStats::default();
+            match self.judge_against(outs, &reference_counts_with(self, &stop), &mut tmp) {
+                None => {
+                    stats.merge(&tmp, &[]);
+                    return None;
+                }
+                Some(v) => {
+                    if first.is_none() {
+                        first = Some(v);
+                    }
+                }
+            }
+        }
+        first.map(|mut v| {
+            v.detail = format!("(with undecodable lines; no accepted reading of them explains the result) {}", v.detail);
+            v
+        })
+    }
+
+    fn judge_against(
+        &self,
+        outs: &[(u8, Result<DictOut, String>, Status)],
+        reference: &BTreeMap<String, usize>,
+        stats: &mut RunStats,
+    ) -> Option<Violation> {
         let v = |class: &str, detail: String| Some(Violation { class: class.into(), detail });
-        let reference = reference_counts(self);
         let vsize = reference.len();
         let want_len = self.max_size.map(|m| m.min(vsize)).unwrap_or(vsize);
         stats.param("vocabulary", vsize as i64);
